@@ -410,23 +410,6 @@ Definition section (pre : bytes) (l : alog) (p : N) : bytes :=
 Definition format_native (pre : bytes) (l : alog) : bytes :=
   flat_map (section pre l) (al_parts l).
 
-(* the boundary letters a reader finds: lines of the form pre ++ [x] ++ "--" *)
-Definition boundary_at (pre : bytes) (s : bytes) : option N :=
-  if is_prefix pre s then
-    match skipn (length pre) s with
-    | x :: d1 :: d2 :: e :: _ => if (d1 =? 45) && (d2 =? 45) && (e =? nl) then Some x else None
-    | _ => None
-    end
-  else None.
-
-Fixpoint scan_boundaries (pre : bytes) (at_start : bool) (s : bytes) : list N :=
-  match s with
-  | [] => []
-  | c :: r =>
-    (if at_start then match boundary_at pre s with Some x => [x] | None => [] end else [])
-    ++ scan_boundaries pre (c =? nl) r
-  end.
-
 (* ------------------------------------------------------------------------------------------ *)
 (* writers: one Write = one atomic append                                                      *)
 (* ------------------------------------------------------------------------------------------ *)
@@ -441,6 +424,18 @@ Fixpoint split_lines (cur : bytes) (s : bytes) : list bytes :=
   | [] => match cur with [] => [] | _ => [rev cur] end
   | c :: r => if c =? nl then rev cur :: split_lines [] r else split_lines (c :: cur) r
   end.
+
+(* the boundary letters a reader of a native record finds: the lines equal to pre ++ [x] ++ "--" *)
+Definition boundary_line (pre : bytes) (ln : bytes) : option N :=
+  if is_prefix pre ln then
+    match skipn (length pre) ln with
+    | [x; d1; d2] => if (d1 =? 45) && (d2 =? 45) then Some x else None
+    | _ => None
+    end
+  else None.
+
+Definition scan_lines (pre : bytes) (out : bytes) : list N :=
+  flat_map (fun ln => match boundary_line pre ln with Some x => [x] | None => [] end) (split_lines [] out).
 
 (* any schedule of G writers: the order in which the atomic appends reach the file *)
 Inductive interleave {A : Type} : list (list A) -> list A -> Prop :=
